@@ -444,6 +444,41 @@ package types
 //@   returns (res, ok)
 //@   ensures same: a.AddrPort.ip.kind == 1 && a.AddrPort.port != 0 ==> ok && is4(res, a.AddrPort.ip.bits, a.AddrPort.port)
 
+// String of an address that holds an IPv4 address: the dotted quad alone when the port is the role's default
+// (0 for bind, 60000 for broadcast), otherwise quad:port; a listen address always carries its port.
+// fmt's %v of such a value is this method (fmt.Stringer) - used by the MarshalJSON methods.
+//@ func (BindAddr).String
+//@   params a
+//@   returns s
+//@   ensures text: a.AddrPort.ip.kind == 1 ==> addr.quadOf(s) == a.AddrPort.ip.bits && (a.AddrPort.port == 0 ? addr.isQuad(s) : addr.isQuadPort(s) && addr.portOf(s) == a.AddrPort.port)
+//@ func (BroadcastAddr).String
+//@   params a
+//@   returns s
+//@   ensures text: a.AddrPort.ip.kind == 1 ==> addr.quadOf(s) == a.AddrPort.ip.bits && (a.AddrPort.port == 60000 ? addr.isQuad(s) : addr.isQuadPort(s) && addr.portOf(s) == a.AddrPort.port)
+//@ func (ListenAddr).String
+//@   params a
+//@   returns s
+//@   ensures text: a.AddrPort.ip.kind == 1 && a.AddrPort.port != 0 ==> addr.quadOf(s) == a.AddrPort.ip.bits && addr.isQuadPort(s) && addr.portOf(s) == a.AddrPort.port
+
+// JSON round trip of the address types: decoding the JSON encoding of an address that satisfies its role's port
+// rule into a zero-valued variable yields the same address and port
+//@ func lemmaBindAddrJSON
+//@   params a
+//@   returns (res, ok)
+//@   ensures same: a.AddrPort.ip.kind == 1 && a.AddrPort.port != 60000 ==> ok && is4(res, a.AddrPort.ip.bits, a.AddrPort.port)
+//@ func lemmaBroadcastAddrJSON
+//@   params a
+//@   returns (res, ok)
+//@   ensures same: a.AddrPort.ip.kind == 1 && a.AddrPort.port != 0 ==> ok && is4(res, a.AddrPort.ip.bits, a.AddrPort.port)
+//@ func lemmaListenAddrJSON
+//@   params a
+//@   returns (res, ok)
+//@   ensures same: a.AddrPort.ip.kind == 1 && a.AddrPort.port != 0 && a.AddrPort.port != 60000 ==> ok && is4(res, a.AddrPort.ip.bits, a.AddrPort.port)
+//@ func lemmaControllerAddrJSON
+//@   params a
+//@   returns (res, ok)
+//@   ensures same: a.AddrPort.ip.kind == 1 && a.AddrPort.port != 0 ==> ok && is4(res, a.AddrPort.ip.bits, a.AddrPort.port)
+
 // ---- C14: JSON and text forms of the leaf types ---------------------------------------------------
 // json.isstr(row(b), len(b)): the bytes are a JSON string; json.unq(...): its content (/verif/spec/json.spec)
 
